@@ -21,9 +21,12 @@ fields of `Key`, before byte encoding) and value. Decided:
      that row's cell, out-point, coordinates, and the data iff asked.
  m6  `IndexerHandle::get_cells_capacity`: same scan and filters; the capacity answered is the sum over exactly the rows get_cells would list (found: the script length range was
      end-inclusive here and end-exclusive in get_cells -- repaired), with the hash and number decoded from the newest header row; without a header row there is no answer.
+ m7  `TryInto<FilterOptions> for IndexerSearchKey`: each option comes from the same-named JSON field only (ranges as [start, end] of their own range, output data with the given
+     mode or Prefix, `with_data` default true); too long filter script args are refused.
+ m8  `build_query_options`: prefix = table byte of the searched script kind ++ raw searched script; start key, direction and skip for ascending / descending order with and
+     without a cursor.
 
-Outside: the byte encodings of keys and values (`From<Key> for Vec<u8>`, `parse_cell_value`; modelled as injective records), `build_query_options`, the `FilterOptions` conversion,
-filter combinations, the pool overlay of get_cells / get_cells_capacity, custom filters, prune, the pool, the rich indexer (SQL).
+Outside: the byte encodings of keys and values (`From<Key> for Vec<u8>`, `parse_cell_value`; modelled as injective records), filter combinations, the pool overlay of get_cells / get_cells_capacity, custom filters, prune, the pool, the rich indexer (SQL).
 """
 import os
 import re
@@ -406,9 +409,9 @@ def m3_two_blocks_then_two_rollbacks(S):
             S.prove(ctx, ob, f"{name}_after_{back}_rollbacks_rows_equal_the_state_{2 - back}_blocks_in", [], bool(not diff), extra={"note": str(diff)[:1500]})
 
 
-from obligations.indexer_query import m4_get_transactions, m5_get_cells, m6_get_cells_capacity     # noqa: E402  (query side: the `get_transactions` / `get_cells` RPCs over two index rows)
+from obligations.indexer_query import m4_get_transactions, m5_get_cells, m6_get_cells_capacity, m7_filter_options, m8_build_query_options     # noqa: E402  (query side: the `get_transactions` / `get_cells` RPCs over two index rows)
 
-OBLIGATIONS = [m1_m2_append_then_rollback, m3_two_blocks_then_two_rollbacks, m4_get_transactions, m5_get_cells, m6_get_cells_capacity]
+OBLIGATIONS = [m1_m2_append_then_rollback, m3_two_blocks_then_two_rollbacks, m4_get_transactions, m5_get_cells, m6_get_cells_capacity, m7_filter_options, m8_build_query_options]
 
 ENGINE = "M"
 LEVEL = "other"
@@ -420,7 +423,8 @@ BOUNDS = {"scenarios": "5 block shapes (cellbase only; spending an untyped / typ
           "query": "get_transactions: 2 rows following the start key, limit 1 and 2, Lock/Type search, grouped/ungrouped, exact/prefix mode, script filter present, block range present or not",
           "query_capacity": "get_cells_capacity: 2 rows, Lock/Type search, one filter at a time (9 kinds), exact and prefix mode, newest header row present or not",
           "query_cells": "get_cells: 2 rows following the start key, Lock/Type search, one filter at a time (9 kinds incl. none), exact mode limit 2 (limit 1 for two filters), prefix mode, with and without data; no pool attached",
-          "outside": "byte encodings of keys and values, build_query_options (start key / cursor), FilterOptions conversion, combinations of several filters, cells consumed by pool transactions, custom filters, prune, rich indexer"}
+          "query_options": "FilterOptions conversion: 4 search keys (all filter fields given, no output-data mode, no filter, with_data false); build_query_options: Lock/Type x Asc/Desc x with/without cursor, byte strings as lists of segments",
+          "outside": "byte encodings of keys and values, combinations of several filters, cells consumed by pool transactions, custom filters, prune, rich indexer"}
 ASSUMPTIONS = ["key and value byte encodings are injective (modelled as records)", "store reads see the committed state, batch writes become visible at commit", "no custom filter, no pool attached",
                "query: the iterator yields the rows in key order; every transaction-index key ends with 17 bytes of coordinates (storage invariant established by append, m1); the request is within the request limit and does not time out"]
 TRUSTED = []
